@@ -409,6 +409,11 @@ func (e *specEnv) call(x *ast.CallExpr) specVal {
 			}
 		}
 		return v
+	case "tail":
+		// tail(b): b, marking the case as one whose outcome is that of a form in tail position
+		if len(x.Args) == 1 {
+			return specVal{e.evalBool(x.Args[0]), tBool}
+		}
 	case "implies":
 		if need(2) {
 			return specVal{Implies(e.evalBool(x.Args[0]), e.evalBool(x.Args[1])), tBool}
@@ -698,6 +703,22 @@ type GoalTree struct {
 	Cond Term
 	A, B *GoalTree
 	Leaf Term
+	Tail bool // leaf of the form OUT == cont(...): the outcome is that of evaluating another form in tail position
+}
+
+// tailPaths: the path conditions under which a tail leaf is reached.
+func (t *GoalTree) tailPaths(conds []Term, out *[]Term) {
+	if t == nil {
+		return
+	}
+	if t.A == nil {
+		if t.Tail {
+			*out = append(*out, And(conds...))
+		}
+		return
+	}
+	t.A.tailPaths(append(append([]Term{}, conds...), t.Cond), out)
+	t.B.tailPaths(append(append([]Term{}, conds...), Not(t.Cond)), out)
 }
 
 func (t *GoalTree) leaves() int {
@@ -764,7 +785,22 @@ func (e *specEnv) tree(x ast.Expr) *GoalTree {
 		n := &specEnv{a: nil, tr: e.tr, pkg: sf.pkg, st: e.st, old: e.old, vars: bind, errs: e.errs, depth: e.depth + 1}
 		return n.tree(sf.body)
 	}
-	return &GoalTree{Leaf: e.evalBool(x)}
+	leaf := &GoalTree{Leaf: e.evalBool(x)}
+	if c, ok := x.(*ast.CallExpr); ok {
+		if id, ok := c.Fun.(*ast.Ident); ok && id.Name == "tail" {
+			leaf.Tail = true
+		}
+	}
+	if be, ok := x.(*ast.BinaryExpr); ok && be.Op == token.EQL && e.tr.tailFn != "" {
+		for _, side := range []ast.Expr{be.X, be.Y} {
+			if c, ok := side.(*ast.CallExpr); ok {
+				if id, ok := c.Fun.(*ast.Ident); ok && id.Name == e.tr.tailFn {
+					leaf.Tail = true
+				}
+			}
+		}
+	}
+	return leaf
 }
 
 // specArgs evaluates and coerces the arguments of a spec function application.
